@@ -908,6 +908,13 @@ func (sc *scen) run() (out *outcome) {
 				o.add("post_cancel_connected_"+strings.ReplaceAll(a.result, "-", "_"), 1)
 			}
 		}
+		if a.result == "response" && recs == 0 {
+			// an HTTP response came back on a connection that was attempted after the cancellation:
+			// the proxy completed the handshake and answered, i.e. it served the connection (even if
+			// the answer is its own 502/504)
+			o.fail("post-cancel-connection-answered", false, "%s connection whose dial started %.1f ms after the cancel returned completed its handshake and got an HTTP response (status %d) from the proxy",
+				a.proto, a.started.Sub(tCancel).Seconds()*1000, a.status)
+		}
 		if recs > 0 {
 			o.fail("post-cancel-connection-served", false, "%s connection whose dial started %.1f ms after the cancel returned was served: request %s reached the backend (client saw: %s %d)",
 				a.proto, a.started.Sub(tCancel).Seconds()*1000, a.tag, a.result, a.status)
